@@ -38,6 +38,11 @@ Proof.
   destruct (exists_last (l := a :: l)) as (q & z & E); [discriminate|]. rewrite E, last_last. apply in_or_app. right. left. reflexivity.
 Qed.
 
+Lemma filter_filter' {A} (p q : A -> bool) : forall l, filter p (filter q l) = filter (fun x => q x && p x) l.
+Proof.
+  induction l as [|x l IH]; [reflexivity|]. cbn [filter]. destruct (q x); cbn [filter andb]; [destruct (p x)|]; rewrite ?IH; reflexivity.
+Qed.
+
 Section FinalGen.
   Variable U : list block.
   Variable c : jcfg.
@@ -367,3 +372,320 @@ Section FinalBurst.
     - exact H.
   Qed.
 End FinalBurst.
+
+(* ------------------------------------------------------------------ cursor mode *)
+
+Section FinalCur.
+  Variable U : list block.
+  Variable c : jcfg.
+  Variable w : world.
+  Variable ps : list (N * N).
+  Variable merged_end : N.
+  Variables canon forked : list block.
+  Variable cu : cursor.
+  Variable L : block.
+  Variable rest : list block.
+
+  Hypothesis U_id : forall b, In b U -> bid b <> 0 /\ bid b <> bparent b.
+  Hypothesis U_uniq : forall x y, In x U -> In y U -> bid x = bid y -> x = y.
+  Hypothesis U_up : forall x y, In x U -> In y U -> bparent x = bid y -> bnum y < bnum x.
+  Hypothesis D_decl : forall b, In b U -> decl_none U b.
+
+  Hypothesis Hchain : chain_ok canon.
+  Hypothesis Hincl : incl canon U.
+  Hypothesis HW : WOK U c w.
+  Hypothesis Htip : eventual_tip c w canon.
+  Hypothesis Hmode : j_mode c = 1.
+  Hypothesis Hcur : j_cursor c = Some cu.
+  Hypothesis Hfilter : j_filter c = 1.
+  Hypothesis Hbundle : 0 < j_bundle c.
+
+  Let merged := filter (fun b => bnum b <? merged_end) canon.
+  Hypothesis Hbound : Forall (fun b => bnum b < file_bound) merged.
+  Hypothesis Hfin : on_final_block cu = true.
+
+  Let lib := rn (cu_lib cu).
+  Hypothesis Hfrom : from_num lib canon = L :: rest.
+  Hypothesis HL : bref L = cu_lib cu.
+  Hypothesis HLb : bref L = cu_blk cu.
+
+  Let res := stream_run c w ps merged_end merged forked.
+  Let stopf := if j_stop c =? 0 then file_bound else j_stop c.
+  Let bound := (stopf / j_bundle c + 1) * j_bundle c.
+  Let mend := N.min merged_end bound.
+  Let fend0 := if negb (j_stop c =? 0) && ((j_stop c / j_bundle c + 1) * j_bundle c <=? merged_end) then JStop else JNil.
+  Let rest' := filter (fun b => bnum b <? mend) rest.
+  Let first := j_first c.
+  Let kept := j_kept c.
+
+  Let HcU : Forall (fun x => In x U) canon.
+  Proof. apply Forall_forall. exact Hincl. Qed.
+  Let Hcl : exists x, lnk x canon := lnk_of_chain_ok canon Hchain.
+  Let Hasc : asc canon := chain_ok_asc canon Hchain.
+  Let HmU : forall b, In b merged -> In b U.
+  Proof. intros b Hb. apply Hincl. unfold merged in Hb. apply filter_In in Hb as [Hb _]. exact Hb. Qed.
+  Let ELn : bnum L = lib.
+  Proof. destruct (bref_eq _ _ HL) as [_ E]. exact E. Qed.
+  Let EBn : rn (cu_blk cu) = bnum L.
+  Proof. destruct (bref_eq _ _ HLb) as [_ E]. symmetry. exact E. Qed.
+  Let EBi : ri (cu_blk cu) = bid L.
+  Proof. destruct (bref_eq _ _ HLb) as [E _]. symmetry. exact E. Qed.
+
+  Lemma fc_Hnu : matches_undo (cu_step cu) = false.
+  Proof.
+    unfold on_final_block in Hfin. apply andb_true_iff in Hfin as [_ H]. destruct (cu_step cu); try discriminate; reflexivity.
+  Qed.
+
+  Lemma fc_HLc : In L canon.
+  Proof.
+    assert (H : In L (from_num lib canon)) by (rewrite Hfrom; left; reflexivity).
+    unfold from_num in H. apply filter_In in H as [H _]. exact H.
+  Qed.
+
+  Lemma fc_Hrestc : forall x, In x rest -> In x canon.
+  Proof.
+    intros x Hx. assert (H : In x (from_num lib canon)) by (rewrite Hfrom; right; exact Hx).
+    unfold from_num in H. apply filter_In in H as [H _]. exact H.
+  Qed.
+
+  Lemma fc_rest_above : Forall (fun y => bnum L < bnum y) rest.
+  Proof.
+    pose proof (asc_filter (fun b => lib <=? bnum b) canon Hasc) as Ha. fold (from_num lib canon) in Ha. rewrite Hfrom in Ha.
+    destruct Ha as [Hall _]. exact Hall.
+  Qed.
+
+  Lemma fc_HD : file_delivery merged lib stopf (j_bundle c) = filter (fun b => bnum b <? mend) (L :: rest).
+  Proof.
+    unfold file_delivery, merged. fold bound. rewrite <- Hfrom. unfold from_num. rewrite !filter_filter'.
+    apply filter_ext. intros b. unfold mend.
+    destruct (N.ltb_spec (bnum b) merged_end), (N.leb_spec lib (bnum b)), (N.ltb_spec (bnum b) bound),
+             (N.ltb_spec (bnum b) (N.min merged_end bound)); cbn [andb]; try reflexivity; lia.
+  Qed.
+
+  Lemma fc_mend_all : fend0 = JNil -> forall b, In b canon -> (bnum b <? mend) = (bnum b <? merged_end).
+  Proof.
+    intros Hf b Hb. unfold fend0 in Hf. unfold mend, bound, stopf.
+    destruct (N.ltb_spec (bnum b) merged_end) as [Hlt|Hge].
+    - apply N.ltb_lt. apply N.min_glb_lt; [exact Hlt|].
+      case_eq (j_stop c =? 0); intros E0; rewrite E0 in Hf; cbn [negb andb] in Hf.
+      + assert (Hbm : In b merged) by (unfold merged; apply filter_In; split; [exact Hb | apply N.ltb_lt; exact Hlt]).
+        rewrite Forall_forall in Hbound. specialize (Hbound b Hbm).
+        pose proof (N.mul_succ_div_gt file_bound (j_bundle c)) as H. rewrite <- N.add_1_r in H. nia.
+      + destruct (N.leb_spec ((j_stop c / j_bundle c + 1) * j_bundle c) merged_end) as [Hle|Hgt]; [discriminate|]. lia.
+    - apply N.ltb_ge. lia.
+  Qed.
+
+  Lemma fc_run_files :
+    run_files c (run_start c w) merged_end merged forked =
+    (fst (from_cursor_run merged forked cu stopf (j_bundle c)),
+     match snd (from_cursor_run merged forked cu stopf (j_bundle c)) with
+     | RsOk => fend0 | RsResolveErr => JInvalidArg | RsNotImplemented => JOther | RsFuel => JFuel end).
+  Proof.
+    unfold run_files. rewrite Hmode, Hcur. cbn [N.eqb Pos.eqb].
+    change (if j_stop c =? 0 then 1000000000000 else j_stop c) with stopf.
+    destruct (from_cursor_run merged forked cu stopf (j_bundle c)) as [fevs r]. reflexivity.
+  Qed.
+
+  (* the files: nothing (the cursor block is not in them), or the merged blocks after L as new+irreversible *)
+  Lemma fc_files :
+    from_cursor_run merged forked cu stopf (j_bundle c) = ([], RsOk) \/
+    (from_cursor_run merged forked cu stopf (j_bundle c) = (map fev rest', RsOk) /\
+     lnk (bid L) rest' /\ (forall b, In b rest' -> In b merged)).
+  Proof.
+    pose proof (merged_chain_ok canon merged_end Hchain) as Hmok. fold merged in Hmok.
+    set (D := file_delivery merged lib stopf (j_bundle c)).
+    destruct (bnum L <? mend) eqn:ELm.
+    { right.
+      assert (HD' : D = L :: rest') by (unfold D; rewrite fc_HD; cbn [filter]; rewrite ELm; reflexivity).
+      assert (Hset : setting merged cu stopf (j_bundle c) L rest') by (split; [exact Hmok|]; split; [exact HD' | exact HL]).
+      split.
+      - rewrite (c06_resume_on_chain_proof merged forked cu stopf (j_bundle c) L rest' L Hset fc_Hnu (or_introl eq_refl) HLb).
+        fold lib. rewrite EBn, ELn. f_equal.
+        assert (Eb : between lib lib (L :: rest') = []).
+        { unfold between. apply C06_Lists.filter_none. apply Forall_forall. intros y _.
+          destruct (N.ltb_spec lib (bnum y)), (N.leb_spec (bnum y) lib); cbn [andb]; try reflexivity; lia. }
+        assert (Ea : above lib (L :: rest') = rest').
+        { unfold above. cbn [filter]. rewrite <- ELn, N.ltb_irrefl. apply C06_Lists.filter_all.
+          apply Forall_forall. intros y Hy. unfold rest' in Hy. apply filter_In in Hy as [Hy _].
+          pose proof fc_rest_above as H. rewrite Forall_forall in H. apply N.ltb_lt. exact (H y Hy). }
+        rewrite Eb, Ea. reflexivity.
+      - destruct (c06_delivery_segment_proof merged lib stopf (j_bundle c) Hmok) as [_ HDok]. fold D in HDok. rewrite HD' in HDok.
+        destruct (lnk_of_chain_ok _ HDok) as [x Hx]. cbn [lnk] in Hx. split; [apply Hx|].
+        intros b Hb. assert (H : In b D) by (rewrite HD'; right; exact Hb). unfold D, file_delivery in H. apply filter_In in H as [H _]. exact H. }
+    left. unfold from_cursor_run. fold lib. fold D. unfold D. rewrite fc_HD. cbn [filter]. rewrite ELm.
+    rewrite (C06_Lists.filter_none _ _ rest); [reflexivity|].
+    apply N.ltb_ge in ELm. eapply Forall_impl; [|exact fc_rest_above]. cbn beta. intros y Hy. apply N.ltb_ge. lia.
+  Qed.
+
+  Notation cshape := (cur_shape c canon w L).
+
+  Lemma fc_rest'_U : lnk (bid L) rest' -> (forall b, In b rest' -> In b merged) -> Forall (fun y => In y U) rest'.
+  Proof. intros _ H. apply Forall_forall. intros y Hy. apply HmU, H, Hy. Qed.
+
+  (* ---------------------------------------------------------------- the three shapes *)
+
+  Lemma fc_live burst k :
+    h_ready (w_hub w) = true -> blocks_from_cursor (h_f (w_hub w)) cu = BOk burst ->
+    cshape (map eblk (filter irr_ev (burst ++ pushed c k w))) (w_rest (world_after c k w) = []).
+  Proof.
+    intros Hrd Hb. pose proof fc_HLc as HLc. assert (HLU : In L U) by (apply Hincl; exact HLc).
+    destruct (g_lokx_of_world U c U_id U_uniq U_up D_decl w HW Hrd) as (a & Fin & A & V & HLX & HX).
+    destruct (final_cursor_burst U first kept U_id U_uniq U_up a Fin A _ V cu L burst HX HL HLb HLU fc_Hnu Hb)
+      as (B & Emap & HlB & HBU & Eirr & HLjin).
+    set (Lj := libblk a Fin) in *.
+    rewrite filter_irr_app, map_app, Eirr.
+    assert (Ew0 : w = world_after c 0 w) by reflexivity.
+    pose proof (under_L_above U canon L U_id U_uniq U_up HcU HLc B HlB HBU) as HBab.
+    destruct (N.lt_ge_cases (bnum L) (bnum Lj)) as [Hlt|Hge].
+    - (* the hub's LIB is above the cursor: the answer is new+irreversible up to the LIB block *)
+      apply in_split in HLjin as (pre & post & EB); [|exact Hlt].
+      assert (HSB : StronglySorted blt B) by (apply (lnk_sorted U U_id U_uniq U_up B (bid L)); assumption).
+      assert (Efil : filter (fun b => bnum b <=? bnum Lj) B = pre ++ [Lj]) by (rewrite EB; apply sorted_filter_le; rewrite <- EB; exact HSB).
+      rewrite Efil.
+      apply (final_tail U c canon w L U_id U_uniq U_up D_decl HcU Hcl HLc Htip w 0%nat a Fin A (pre ++ [Lj]) k Ew0 HLX).
+      + rewrite EB in HlB. change (Lj :: post) with ([Lj] ++ post) in HlB. rewrite app_assoc in HlB. eapply linked_prefix. exact HlB.
+      + rewrite EB in HBU. change (Lj :: post) with ([Lj] ++ post) in HBU. rewrite app_assoc in HBU. apply Forall_app in HBU as [H _]. exact H.
+      + left. rewrite last_last. reflexivity.
+    - (* the hub's LIB is at or below the cursor: nothing of the answer is final *)
+      rewrite (C06_Lists.filter_none _ _ B).
+      + apply (final_tail U c canon w L U_id U_uniq U_up D_decl HcU Hcl HLc Htip w 0%nat a Fin A [] k Ew0 HLX I (Forall_nil _)).
+        right. cbn [last]. split; [exact HLc | exact Hge].
+      + eapply Forall_impl; [|exact HBab]. cbn beta. intros y Hy. apply N.leb_gt. fold Lj. lia.
+  Qed.
+
+  Lemma fc_join m Dpre bn D' lowest burst k :
+    lnk (bid L) rest' -> (forall b, In b rest' -> In b merged) ->
+    rest' = Dpre ++ bn :: D' ->
+    join_try c (world_after c m w) lowest (fev bn) = Some burst ->
+    cshape (map eblk (filter irr_ev (map fev Dpre ++ burst ++ pushed c k (world_after c m w))))
+           (w_rest (world_after c k (world_after c m w)) = []).
+  Proof.
+    intros Hlr Hrm ED Ej. set (wj := world_after c m w) in *.
+    pose proof fc_HLc as HLc. assert (HLU : In L U) by (apply Hincl; exact HLc).
+    pose proof (fc_rest'_U Hlr Hrm) as HrU.
+    pose proof (wok_after U c U_id U_uniq U_up D_decl m w HW) as HWj. fold wj in HWj.
+    assert (Hmode2 : (j_mode c =? 2) = false) by (rewrite Hmode; reflexivity).
+    destruct (join_mode0 c wj lowest (fev bn) burst Hmode2 Ej) as (Hb & Hrd & _). cbn [eblk file_event] in Hb.
+    assert (Hbn : In bn merged) by (apply Hrm; rewrite ED; apply in_or_app; right; left; reflexivity).
+    destruct (g_lokx_of_world U c U_id U_uniq U_up D_decl wj HWj Hrd) as (a & Fin & A & V & HLX & HX).
+    pose proof (vstatex_vstate U first kept a Fin A _ V HX) as HV.
+    destruct (id_joins U c U_id U_uniq U_up merged HmU w Hmode2 m lowest bn burst Hbn Ej) as [_ HJ].
+    destruct (HJ V HV) as (hd & sufb & l0 & Hhd & Hmap & Hnew & HbU & Hlsuf & Hlast).
+    destruct (burst_irr U c U_id U_uniq U_up D_decl a Fin A _ V (bnum bn) burst HX Hb) as [Hirr1 Hirr2].
+    set (Lj := libblk a Fin) in *.
+    assert (HDpU : Forall (fun y => In y U) Dpre).
+    { rewrite ED in HrU. apply Forall_app in HrU as [H _]. exact H. }
+    assert (HlDbn : lnk (bid L) (Dpre ++ [bn])).
+    { rewrite ED in Hlr. change (bn :: D') with ([bn] ++ D') in Hlr. rewrite app_assoc in Hlr. eapply linked_prefix. exact Hlr. }
+    assert (HlDpre : lnk (bid L) Dpre) by (eapply linked_prefix; exact HlDbn).
+    rewrite !filter_irr_app, !map_app.
+    assert (Ef : map eblk (filter irr_ev (map fev Dpre)) = Dpre).
+    { rewrite (C06_Lists.filter_all _ _ (map fev Dpre)); [apply map_eblk_fev|].
+      apply Forall_forall. intros e He. apply in_map_iff in He as (b & <- & _). reflexivity. }
+    rewrite Ef.
+    destruct (N.le_gt_cases (bnum bn) (bnum Lj)) as [Hle|Hgt].
+    - (* the join is at or below the hub's LIB *)
+      destruct (Hirr1 Hle) as (pre & post & Esplit & Ebi). fold Lj in Esplit, Ebi. rewrite Hmap in Esplit. rewrite Ebi.
+      assert (H1 : lnk (bid L) (Dpre ++ bn :: sufb)).
+      { change (bn :: sufb) with ([bn] ++ sufb). rewrite app_assoc. apply linked_app_iff. split; [exact HlDbn|].
+        rewrite tip_snoc. exact Hlsuf. }
+      rewrite Esplit in H1.
+      assert (H2 : lnk (bid L) ((Dpre ++ pre ++ [Lj]) ++ post)) by (rewrite <- !app_assoc; exact H1).
+      apply linked_prefix in H2.
+      replace (Dpre ++ (pre ++ [Lj]) ++ map eblk (filter irr_ev (pushed c k wj)))
+        with ((Dpre ++ pre ++ [Lj]) ++ map eblk (filter irr_ev (pushed c k wj))) by (rewrite <- !app_assoc; reflexivity).
+      apply (final_tail U c canon w L U_id U_uniq U_up D_decl HcU Hcl HLc Htip wj m a Fin A (Dpre ++ pre ++ [Lj]) k eq_refl HLX H2).
+      + apply Forall_app. split; [exact HDpU|]. apply Forall_forall. intros y Hy. rewrite Forall_forall in HbU. apply HbU.
+        rewrite Esplit. apply in_app_or in Hy as [Hy|[<-|[]]]; apply in_or_app; [left; exact Hy | right; left; reflexivity].
+      + left. rewrite !app_assoc, last_last. reflexivity.
+    - (* the join is above the hub's LIB *)
+      rewrite (Hirr2 Hgt). cbn [map app].
+      assert (HpU : In (last Dpre L) U).
+      { destruct (last_in_or Dpre L) as [E|E]; [rewrite E; exact HLU | rewrite Forall_forall in HDpU; apply HDpU; exact E]. }
+      assert (Hpbn : bparent bn = bid (last Dpre L)).
+      { pose proof (linked_mid _ _ _ _ HlDbn) as H. rewrite (tip_last (bid L) Dpre L) in H. destruct Dpre; exact H. }
+      apply (final_tail U c canon w L U_id U_uniq U_up D_decl HcU Hcl HLc Htip wj m a Fin A Dpre k eq_refl HLX HlDpre HDpU).
+      right. split.
+      + destruct (last_in_or Dpre L) as [E|E]; [rewrite E; exact HLc|].
+        assert (H : In (last Dpre L) merged) by (apply Hrm; rewrite ED; apply in_or_app; left; exact E).
+        unfold merged in H. apply filter_In in H as [H _]. exact H.
+      + exact (burst_parent_le U c U_id U_uniq U_up D_decl a Fin A _ V (bnum bn) burst bn sufb (last Dpre L) HX Hb Hmap Hgt HpU Hpbn).
+  Qed.
+
+  (* ---------------------------------------------------------------- the theorem *)
+
+  Lemma fc_mem : start_mem c = Some (bnum L).
+  Proof. rewrite (start_mem_cursor c cu Hmode Hcur), EBn. reflexivity. Qed.
+
+  Lemma cur_final :
+    final_fold (Some (ri (cu_blk cu))) (fst res) = true /\
+    (snd res = JNil ->
+       fst res = [] \/ map eblk (fst res) = above lib merged \/
+       exists hi, final_lib c w <= hi /\ map eblk (fst res) = seg_num (lib + 1) hi canon).
+  Proof.
+    pose proof (c07_run_shapes_proof c w ps merged_end merged forked) as Hsh. cbv zeta in Hsh.
+    rewrite fc_run_files in Hsh. cbn [fst snd] in Hsh. fold res in Hsh.
+    assert (Hseen : forall X, seen c X = undup c (Some (bnum L)) X) by (intros X; rewrite (seen_final c X Hfilter), fc_mem; reflexivity).
+    rewrite EBi.
+    (* the output against the run the filter lets through *)
+    assert (Hfold : forall X out Bd, (exists rest0, undup c (Some (bnum L)) X = out ++ rest0) ->
+              records (Some (bnum L)) (map eblk (filter irr_ev X)) = Bd -> lnk (bid L) Bd -> final_fold (Some (bid L)) out = true).
+    { intros X out Bd [rest0 E] EBd Hl. apply final_fold_lnk.
+      rewrite <- EBd, <- (undup_blocks c Hfilter X (Some (bnum L))), E, map_app in Hl. eapply linked_prefix. exact Hl. }
+    assert (Hraw : forall X P, raw_out c (undup c (Some (bnum L)) X) res P -> cshape (map eblk (filter irr_ev X)) P ->
+              final_fold (Some (bid L)) (fst res) = true /\
+              (snd res = JNil -> fst res = [] \/ map eblk (fst res) = above lib merged \/
+                 exists hi, final_lib c w <= hi /\ map eblk (fst res) = seg_num (lib + 1) hi canon)).
+    { intros X P Hro (Bd & EBd & HlBd & Hcompl).
+      destruct (undup_sorted c X (Some (bnum L))) as (Hp & _ & _).
+      split.
+      - apply (Hfold X (fst res) Bd); [exact (raw_out_prefix_of c _ res P Hp Hro) | exact EBd | exact HlBd].
+      - intros Hn. right. right. unfold raw_out in Hro. rewrite Hn in Hro. destruct Hro as (HP & Hns & Hf).
+        destruct (Hcompl HP) as (hi & Hhi & EBd2). exists hi. split; [exact Hhi|].
+        rewrite Hf, (pass_delivered c _ Hp Hns), (undup_blocks c Hfilter X (Some (bnum L))), EBd, EBd2, ELn. reflexivity. }
+    destruct Hsh as [[_ Hr]|[Hrej [(burst & k & Hlt & Hro)|[[_ Hr]|[Hlt [(pre & e & rest0 & m & lowest & burst & k & Ef & Hns & Hj & Hro)|Hfo]]]]]].
+    - rewrite Hr. split; [reflexivity | discriminate].
+    - unfold live_try in Hlt. rewrite Hmode, Hcur in Hlt. cbn [N.eqb Pos.eqb] in Hlt.
+      destruct (h_ready (w_hub w)) eqn:Hrd; cbn [negb] in Hlt; [|discriminate].
+      rewrite Hseen in Hro. apply (Hraw _ _ Hro). exact (fc_live burst k Hrd Hlt).
+    - rewrite Hr. split; [reflexivity | discriminate].
+    - destruct fc_files as [Enone|(Erun & Hlr & Hrm)].
+      { rewrite Enone in Ef. cbn [fst] in Ef. destruct pre; discriminate. }
+      rewrite Erun in Ef. cbn [fst] in Ef.
+      apply map_eq_app in Ef as (Dpre & D2 & ED & Epre & E2). apply map_eq_cons in E2 as (bn & D' & ED2 & Ebn & _).
+      subst pre e D2. rewrite Hseen in Hro. apply (Hraw _ _ Hro). exact (fc_join m Dpre bn D' lowest burst k Hlr Hrm ED Hj).
+    - rewrite Hseen in Hfo. destruct fc_files as [Enone|(Erun & Hlr & Hrm)].
+      + rewrite Enone in Hfo. cbn [fst snd undup] in Hfo.
+        assert (E : fst res = []).
+        { destruct Hfo as [[_ Hr]|[Hs _]]; [rewrite Hr; reflexivity | discriminate]. }
+        rewrite E. split; [reflexivity | intros _; left; reflexivity].
+      + rewrite Erun in Hfo. cbn [fst snd] in Hfo.
+        pose proof (fc_rest'_U Hlr Hrm) as HrU.
+        assert (Erec : records (Some (bnum L)) (map eblk (filter irr_ev (map fev rest'))) = rest').
+        { rewrite (C06_Lists.filter_all _ _ (map fev rest')), map_eblk_fev.
+          - apply records_above; [exact (under_L_above U canon L U_id U_uniq U_up HcU fc_HLc rest' Hlr HrU)|].
+            exact (lnk_sorted U U_id U_uniq U_up rest' (bid L) Hlr HrU).
+          - apply Forall_forall. intros e He. apply in_map_iff in He as (b & <- & _). reflexivity. }
+        destruct (undup_sorted c (map fev rest') (Some (bnum L))) as (Hp & _ & _).
+        split.
+        * apply (Hfold (map fev rest') (fst res) rest'); [exact (files_out_prefix_of c _ fend0 res Hp Hfo) | exact Erec | exact Hlr].
+        * intros Hn. right. left. destruct Hfo as [[Hns Hr]|[Hs Hr]]; rewrite Hr in Hn |- *; cbn [fst snd] in *; [|discriminate].
+          rewrite (pass_delivered c _ Hp Hns), (undup_blocks c Hfilter _ (Some (bnum L))), Erec.
+          unfold rest'. rewrite <- (above_of_from_num canon lib L rest Hasc Hfrom ELn).
+          unfold above, merged. rewrite !filter_filter'. apply filter_ext_in. intros b Hb.
+          rewrite (fc_mend_all Hn b Hb). apply andb_comm.
+  Qed.
+End FinalCur.
+
+Lemma c07_seamless_cursor_final_proof : C07_seamless_cursor_final_full.
+Proof.
+  intros U c w ps merged_end canon forked cu L rest Hwfb Hlok [[l [Hl Hhub]] Hrest] Hchain Hincl merged Htip
+         Hmode Hcur Hfilter Hbundle Hbound Hfin Hfrom HL HLb res.
+  assert (Hscope : disc_scope2_b U = true) by (unfold disc_scope2_b; rewrite Hwfb, Hlok; reflexivity).
+  pose proof (bridge_id U Hwfb) as Hid. pose proof (bridge_uniq U Hwfb) as Huniq. pose proof (bridge_up U Hwfb) as Hup.
+  pose proof (bridge2_decl_none U Hscope) as Hdecl.
+  assert (HW : WOK U c w).
+  { split; [|exact Hrest]. rewrite Hhub. apply (hub_ok_run U (j_first c) (j_kept c) Hwfb Hlok l Hl). }
+  exact (cur_final U c w ps merged_end canon forked cu L rest Hid Huniq Hup Hdecl Hchain Hincl HW Htip Hmode Hcur Hfilter Hbundle Hbound
+           Hfin Hfrom HL HLb).
+Qed.
